@@ -393,6 +393,8 @@ class NetworkService(ModelElement):
         iff = Interface(name=name, node_id=node_id, parent_node_id=self.node_id,
                         etype=ElementType.NEW, topo=self.topo, itype=itype,
                         **kwargs)
+        # keep this handle's list in step with the model (the uniqueness check above reads it)
+        self._interfaces.append(iff)
         return iff
 
     def remove_interface(self, *, name: str) -> None:
